@@ -1,10 +1,10 @@
 (* Skeleton emission model for the core of the component grammar:
 
        body   ::= block*
-       block  ::= section | full-width section | wrapper of section* ;   no background images; wrappers not full-width
+       block  ::= section | full-width section | wrapper of section* | hero of leaf* ;   sections with or without background-url; wrappers not full-width
        section::= column* | group+ ;   a section holds columns only or groups only
        group  ::= column*
-       column ::= leaf*
+       column ::= leaf* ;   with or without padding (gutter table)
        leaf   ::= text | divider | spacer | image | image-with-link | button | button-with-link
 
    [emit_body] is a hand port of the tag / conditional-comment structure written by
@@ -22,9 +22,10 @@ Local Notation length := List.length.
 
 (* leaves that carry author content carry it as a parameter; divider and spacer write generated text *)
 Inductive leaf := KText (s : bytes) | KDivider | KSpacer | KImage | KImageLink | KButton (s : bytes) | KButtonLink (s : bytes).
-Definition column := list leaf.
+Definition column := (bool * list leaf)%type.          (* true = the column has padding: its rows sit in a gutter table *)
 Inductive section := Cols (cs : list column) | Groups (gs : list (list column)).
-Inductive block := Plain (s : section) | FullWidth (s : section) | Wrap (ss : list section).
+Definition sect := (bool * section)%type.               (* true = background-url: the section is wrapped in a VML rectangle for Outlook *)
+Inductive block := Plain (s : sect) | FullWidth (s : sect) | Wrap (ss : list sect) | Hero (ks : list leaf).
 Definition body := list block.
 
 (* a segment of output: plain markup, or the inside of one <!--[if mso | IE]> ... <![endif]--> *)
@@ -48,8 +49,11 @@ Definition leaf_segs (k : leaf) : list seg :=
   end.
 
 Definition row_segs (k : leaf) : list seg := P [o "tr"; o "td"] :: leaf_segs k ++ [P [c "td"; c "tr"]].
-Definition col_segs (ks : column) : list seg :=
-  P [o "div"; o "table"; o "tbody"] :: flat_map row_segs ks ++ [P [c "tbody"; c "table"; c "div"]].
+Definition col_segs (cl : column) : list seg :=
+  if fst cl
+  then P [o "div"; o "table"; o "tbody"; o "tr"; o "td"; o "table"; o "tbody"] :: flat_map row_segs (snd cl) ++
+       [P [c "tbody"; c "table"; c "td"; c "tr"; c "tbody"; c "table"; c "div"]]
+  else P [o "div"; o "table"; o "tbody"] :: flat_map row_segs (snd cl) ++ [P [c "tbody"; c "table"; c "div"]].
 
 (* the Outlook table row of a section: one cell per column, the cell hand-over inside one conditional *)
 Definition more_cols (cs : list column) : list seg := flat_map (fun ks => M [c "td"; o "td"] :: col_segs ks) cs.
@@ -69,16 +73,22 @@ Definition children_segs (s : section) : list seg :=
 Definition sec_segs (s : section) : list seg :=
   P [o "div"; o "table"; o "tbody"; o "tr"; o "td"] :: children_segs s ++ [P [c "td"; c "tr"; c "tbody"; c "table"; c "div"]].
 
+(* a section with a background image: VML rectangle + text box for Outlook, one more div for the others *)
+Definition vml_open : seg := M [o "v:rect"; TOpen (lit "v:fill") [] true; o "v:textbox"].
+Definition vml_close : seg := M [c "v:textbox"; c "v:rect"].
+Definition sect_segs (s : sect) : list seg :=
+  if fst s then vml_open :: P [o "div"] :: sec_segs (snd s) ++ [P [c "div"]; vml_close] else sec_segs (snd s).
+
 (* inside a wrapper every section sits in its own row of the wrapper's Outlook table *)
-Definition more_wrapped (ss : list section) : list seg :=
-  flat_map (fun s => M [c "td"; c "tr"; c "table"; c "td"; c "tr"; o "tr"; o "td"; o "table"; o "tr"; o "td"] :: sec_segs s) ss.
-Definition wrap_inner (ss : list section) : list seg :=
+Definition more_wrapped (ss : list sect) : list seg :=
+  flat_map (fun s => M [c "td"; c "tr"; c "table"; c "td"; c "tr"; o "tr"; o "td"; o "table"; o "tr"; o "td"] :: sect_segs s) ss.
+Definition wrap_inner (ss : list sect) : list seg :=
   match ss with
   | [] => [M [o "table"; c "table"]]
-  | s1 :: rest => M [o "table"; o "tr"; o "td"; o "table"; o "tr"; o "td"] :: sec_segs s1 ++ more_wrapped rest
+  | s1 :: rest => M [o "table"; o "tr"; o "td"; o "table"; o "tr"; o "td"] :: sect_segs s1 ++ more_wrapped rest
                   ++ [M [c "td"; c "tr"; c "table"; c "td"; c "tr"; c "table"]]
   end.
-Definition wrap_segs (ss : list section) : list seg :=
+Definition wrap_segs (ss : list sect) : list seg :=
   P [o "div"; o "table"; o "tbody"; o "tr"; o "td"] :: wrap_inner ss ++ [P [c "td"; c "tr"; c "tbody"; c "table"; c "div"]].
 
 (* Body: a plain section leaves its Outlook wrapper table open for a following plain section or
@@ -86,21 +96,30 @@ Definition wrap_segs (ss : list section) : list seg :=
 Definition close3 : seg := M [c "td"; c "tr"; c "table"].
 Definition open_seg (pend : bool) : seg :=
   if pend then M [c "td"; c "tr"; c "table"; o "table"; o "tr"; o "td"] else M [o "table"; o "tr"; o "td"].
-Definition continues (b : block) : bool := match b with Plain _ | Wrap _ => true | FullWidth _ => false end.
+Definition continues (b : block) : bool := match b with Plain _ | Wrap _ => true | FullWidth _ | Hero _ => false end.
+(* full-width: the VML rectangle encloses the Outlook table, not the other way round *)
+Definition fw_segs (s : sect) : list seg :=
+  if fst s
+  then P [o "table"; o "tbody"; o "tr"; o "td"] :: vml_open :: M [o "table"; o "tr"; o "td"] :: P [o "div"] :: sec_segs (snd s) ++
+       [P [c "div"]; close3; vml_close; P [c "td"; c "tr"; c "tbody"; c "table"]]
+  else P [o "table"; o "tbody"; o "tr"; o "td"] :: M [o "table"; o "tr"; o "td"] :: sec_segs (snd s) ++
+       [close3; P [c "td"; c "tr"; c "tbody"; c "table"]].
+Definition hero_segs (ks : list leaf) : list seg :=
+  M [o "table"; o "tr"; o "td"; TOpen (lit "v:image") [] true] :: P [o "div"; o "table"; o "tbody"; o "tr"; o "td"] ::
+  M [o "table"; o "tr"; o "td"] :: P [o "div"; o "table"; o "tbody"; o "tr"; o "td"; o "table"; o "tbody"] :: flat_map row_segs ks ++
+  [P [c "tbody"; c "table"; c "td"; c "tr"; c "tbody"; c "table"; c "div"]; close3; P [c "td"; c "tr"; c "tbody"; c "table"; c "div"]; close3].
 Fixpoint blocks_segs (pend : bool) (bs : list block) : list seg :=
   match bs with
   | [] => if pend then [close3] else []
   | Plain s :: r =>
-      open_seg pend :: sec_segs s ++
+      open_seg pend :: sect_segs s ++
       (match r with
-       | b' :: _ => if continues b' then blocks_segs true r else close3 :: blocks_segs false r
+       | b' :: _ => if continues b' && negb (fst s) then blocks_segs true r else close3 :: blocks_segs false r
        | [] => [close3]
        end)
   | Wrap ss :: r => open_seg pend :: wrap_segs ss ++ close3 :: blocks_segs false r
-  | FullWidth s :: r =>
-      (if pend then [close3] else []) ++
-      P [o "table"; o "tbody"; o "tr"; o "td"] :: M [o "table"; o "tr"; o "td"] :: sec_segs s ++
-      [close3; P [c "td"; c "tr"; c "tbody"; c "table"]] ++ blocks_segs false r
+  | FullWidth s :: r => (if pend then [close3] else []) ++ fw_segs s ++ blocks_segs false r
+  | Hero ks :: r => (if pend then [close3] else []) ++ hero_segs ks ++ blocks_segs false r
   end.
 Definition body_segs (b : body) : list seg := P [o "div"] :: blocks_segs false b ++ [P [c "div"]].
 
@@ -160,7 +179,7 @@ Lemma leaf_plain k : forallb seg_plain (leaf_segs k) = true. Proof. destruct k; 
 Lemma row_plain k : forallb seg_plain (row_segs k) = true.
 Proof. unfold row_segs. cbn [forallb]. rewrite forallb_app, leaf_plain. reflexivity. Qed.
 Lemma col_plain ks : forallb seg_plain (col_segs ks) = true.
-Proof. unfold col_segs. cbn [forallb]. rewrite forallb_app, (forallb_flat_map row_segs seg_plain ks row_plain). reflexivity. Qed.
+Proof. destruct ks as [g ks]. unfold col_segs. destruct g; cbn [fst snd forallb]; rewrite forallb_app, (forallb_flat_map row_segs seg_plain ks row_plain); reflexivity. Qed.
 Lemma cols_plain cs : forallb seg_plain (cols_segs cs) = true.
 Proof.
   destruct cs as [|c1 rest]; [reflexivity|]. unfold cols_segs. cbn [forallb]. rewrite !forallb_app, col_plain.
@@ -175,22 +194,29 @@ Proof.
 Qed.
 Lemma sec_plain s : forallb seg_plain (sec_segs s) = true.
 Proof. unfold sec_segs. cbn [forallb]. rewrite forallb_app, children_plain. reflexivity. Qed.
+Lemma sect_plain s : forallb seg_plain (sect_segs s) = true.
+Proof. destruct s as [bg s]. unfold sect_segs. destruct bg; cbn [fst snd]; [|apply sec_plain]. cbn [forallb]. rewrite forallb_app, sec_plain. reflexivity. Qed.
 Lemma wrap_plain ss : forallb seg_plain (wrap_segs ss) = true.
 Proof.
   unfold wrap_segs. cbn [forallb]. rewrite forallb_app. destruct ss as [|s1 rest]; [reflexivity|].
-  unfold wrap_inner. cbn [forallb]. rewrite !forallb_app, sec_plain. unfold more_wrapped.
-  rewrite forallb_flat_map; [reflexivity|]. intros s. cbn [forallb]. now rewrite sec_plain.
+  unfold wrap_inner. cbn [forallb]. rewrite !forallb_app, sect_plain. unfold more_wrapped.
+  rewrite forallb_flat_map; [reflexivity|]. intros s. cbn [forallb]. now rewrite sect_plain.
 Qed.
+Lemma fw_plain s : forallb seg_plain (fw_segs s) = true.
+Proof. destruct s as [bg s]. unfold fw_segs. destruct bg; cbn [fst snd forallb]; rewrite forallb_app, sec_plain; reflexivity. Qed.
+Lemma hero_plain ks : forallb seg_plain (hero_segs ks) = true.
+Proof. unfold hero_segs. cbn [forallb]. rewrite forallb_app, (forallb_flat_map row_segs seg_plain ks row_plain). reflexivity. Qed.
 Lemma blocks_plain : forall bs pend, forallb seg_plain (blocks_segs pend bs) = true.
 Proof.
   induction bs as [|b r IH]; intros pend; [destruct pend; reflexivity|].
-  destruct b as [s|s|ss]; cbn [blocks_segs].
-  - cbn [forallb]. rewrite forallb_app, sec_plain. assert (E : seg_plain (open_seg pend) = true) by (destruct pend; reflexivity). rewrite E.
-    destruct r as [|b' r']; [reflexivity|]. destruct (continues b'); [apply IH|]. cbn [forallb]. now rewrite IH.
-  - rewrite forallb_app. assert (E : forallb seg_plain (if pend then [close3] else []) = true) by (destruct pend; reflexivity). rewrite E.
-    cbn [forallb]. rewrite !forallb_app, sec_plain, IH. reflexivity.
-  - cbn [forallb]. rewrite forallb_app, wrap_plain. assert (E : seg_plain (open_seg pend) = true) by (destruct pend; reflexivity). rewrite E.
-    cbn [forallb]. now rewrite IH.
+  assert (E : forallb seg_plain (if pend then [close3] else []) = true) by (destruct pend; reflexivity).
+  assert (O : seg_plain (open_seg pend) = true) by (destruct pend; reflexivity).
+  destruct b as [s|s|ss|ks]; cbn [blocks_segs].
+  - cbn [forallb]. rewrite forallb_app, sect_plain, O.
+    destruct r as [|b' r']; [reflexivity|]. destruct (continues b' && negb (fst s)); [apply IH|]. cbn [forallb]. now rewrite IH.
+  - rewrite !forallb_app, E, fw_plain, IH. reflexivity.
+  - cbn [forallb]. rewrite forallb_app, wrap_plain, O. cbn [forallb]. now rewrite IH.
+  - rewrite !forallb_app, E, hero_plain, IH. reflexivity.
 Qed.
 Lemma body_plain b : forallb seg_plain (body_segs b) = true.
 Proof. unfold body_segs. cbn [forallb]. rewrite forallb_app, blocks_plain. reflexivity. Qed.
@@ -241,19 +267,38 @@ Proof. rewrite row_events. apply wrap2. apply leaf_wb. Qed.
 Lemma events_flat_map {A} v (f : A -> list seg) l : events v (flat_map f l) = flat_map (fun x => events v (f x)) l.
 Proof. induction l as [|x r IH]; cbn [flat_map]; [reflexivity|]. now rewrite events_app, IH. Qed.
 
-Lemma col_events v ks : events v (col_segs ks) =
-  eo "div" :: eo "table" :: eo "tbody" :: flat_map (fun k => events v (row_segs k)) ks ++ [ec "tbody"; ec "table"; ec "div"].
-Proof. unfold col_segs. rewrite events_cons, events_app, events_flat_map. destruct v; reflexivity. Qed.
 Lemma wrap3 a b d es : wb es -> wb (eo a :: eo b :: eo d :: es ++ [ec d; ec b; ec a]).
 Proof.
   intros H. replace (eo a :: eo b :: eo d :: es ++ [ec d; ec b; ec a]) with (eo a :: (eo b :: eo d :: es ++ [ec d; ec b]) ++ [ec a])
     by (cbn; rewrite <- app_assoc; reflexivity).
   apply wb_wrap. apply wrap2. exact H.
 Qed.
+Lemma wrap5 a b d e f es : wb es -> wb (eo a :: eo b :: eo d :: eo e :: eo f :: es ++ [ec f; ec e; ec d; ec b; ec a]).
+Proof.
+  intros H. replace (eo a :: eo b :: eo d :: eo e :: eo f :: es ++ [ec f; ec e; ec d; ec b; ec a])
+    with (eo a :: eo b :: (eo d :: eo e :: eo f :: es ++ [ec f; ec e; ec d]) ++ [ec b; ec a]) by (cbn; rewrite <- app_assoc; reflexivity).
+  apply wrap2. apply wrap3. exact H.
+Qed.
+Lemma wrap7 a b d e f g h es : wb es ->
+  wb (eo a :: eo b :: eo d :: eo e :: eo f :: eo g :: eo h :: es ++ [ec h; ec g; ec f; ec e; ec d; ec b; ec a]).
+Proof.
+  intros H. replace (eo a :: eo b :: eo d :: eo e :: eo f :: eo g :: eo h :: es ++ [ec h; ec g; ec f; ec e; ec d; ec b; ec a])
+    with (eo a :: eo b :: (eo d :: eo e :: eo f :: eo g :: eo h :: es ++ [ec h; ec g; ec f; ec e; ec d]) ++ [ec b; ec a]) by (cbn; rewrite <- app_assoc; reflexivity).
+  apply wrap2. apply wrap5. exact H.
+Qed.
+Lemma col_events v (cl : column) : events v (col_segs cl) =
+  if fst cl
+  then eo "div" :: eo "table" :: eo "tbody" :: eo "tr" :: eo "td" :: eo "table" :: eo "tbody" :: flat_map (fun k => events v (row_segs k)) (snd cl)
+       ++ [ec "tbody"; ec "table"; ec "td"; ec "tr"; ec "tbody"; ec "table"; ec "div"]
+  else eo "div" :: eo "table" :: eo "tbody" :: flat_map (fun k => events v (row_segs k)) (snd cl) ++ [ec "tbody"; ec "table"; ec "div"].
+Proof. destruct cl as [g ks]. unfold col_segs. destruct g; cbn [fst snd]; rewrite events_cons, events_app, events_flat_map; destruct v; reflexivity. Qed.
 Lemma col_wb v ks : wb (events v (col_segs ks)).
-Proof. rewrite col_events. apply wrap3. apply wb_concat_map. intros k. apply row_wb. Qed.
+Proof.
+  rewrite col_events. destruct ks as [g ks]. destruct g; cbn [fst snd].
+  - apply wrap7. apply wb_concat_map. intros k. apply row_wb.
+  - apply wrap3. apply wb_concat_map. intros k. apply row_wb.
+Qed.
 
-(* the Outlook row: after "<table><tr><td>" every further column closes and reopens the cell *)
 Lemma more_cols_std rest : wb (events Std (more_cols rest)).
 Proof. unfold more_cols. rewrite events_flat_map. apply wb_concat_map. intros ks. cbn [events flat_map seg_events app]. apply col_wb. Qed.
 Lemma more_cols_mso : forall rest st, run (lit "td" :: st) (events Mso (more_cols rest)) = Some (lit "td" :: st).
@@ -277,12 +322,6 @@ Proof.
       intros st. cbn [app]. rewrite !run_eo, run_app, (col_wb Mso c1), run_app, more_cols_mso, !run_ec. reflexivity.
 Qed.
 
-Lemma wrap5 a b d e f es : wb es -> wb (eo a :: eo b :: eo d :: eo e :: eo f :: es ++ [ec f; ec e; ec d; ec b; ec a]).
-Proof.
-  intros H. replace (eo a :: eo b :: eo d :: eo e :: eo f :: es ++ [ec f; ec e; ec d; ec b; ec a])
-    with (eo a :: eo b :: (eo d :: eo e :: eo f :: es ++ [ec f; ec e; ec d]) ++ [ec b; ec a]) by (cbn; rewrite <- app_assoc; reflexivity).
-  apply wrap2. apply wrap3. exact H.
-Qed.
 Lemma group_wb v cs : wb (events v (group_segs cs)).
 Proof.
   unfold group_segs. rewrite !events_cons, events_app.
@@ -306,20 +345,30 @@ Proof. unfold sec_segs. rewrite events_cons, events_app. destruct v; reflexivity
 Lemma sec_wb v s : wb (events v (sec_segs s)).
 Proof. rewrite sec_events. apply wrap5. apply children_wb. Qed.
 
+Lemma sect_wb v s : wb (events v (sect_segs s)).
+Proof.
+  destruct s as [bg s]. unfold sect_segs. destruct bg; cbn [fst snd]; [|apply sec_wb].
+  rewrite !events_cons, events_app. destruct v.
+  - change (seg_events Std vml_open) with (@nil ev). change (seg_events Std (P [o "div"])) with [eo "div"].
+    change (events Std [P [c "div"]; vml_close]) with [ec "div"]. cbn [app]. apply (wb_wrap (lit "div")). apply sec_wb.
+  - change (seg_events Mso vml_open) with [eo "v:rect"; eo "v:textbox"]. change (seg_events Mso (P [o "div"])) with [eo "div"].
+    change (events Mso [P [c "div"]; vml_close]) with [ec "div"; ec "v:textbox"; ec "v:rect"]. cbn [app]. apply wrap3. apply sec_wb.
+Qed.
+
 (* wrapper: one row per section in the wrapper's Outlook table *)
 Lemma more_wrapped_std rest : wb (events Std (more_wrapped rest)).
-Proof. unfold more_wrapped. rewrite events_flat_map. apply wb_concat_map. intros s. cbn [events flat_map seg_events app]. apply sec_wb. Qed.
+Proof. unfold more_wrapped. rewrite events_flat_map. apply wb_concat_map. intros s. cbn [events flat_map seg_events app]. apply sect_wb. Qed.
 Definition wstack (st : list bytes) : list bytes :=
   lit "td" :: lit "tr" :: lit "table" :: lit "td" :: lit "tr" :: lit "table" :: st.
 Lemma more_wrapped_mso : forall rest st, run (wstack st) (events Mso (more_wrapped rest)) = Some (wstack st).
 Proof.
   induction rest as [|s rest IH]; intros st; [reflexivity|].
   unfold more_wrapped. cbn [flat_map].
-  change (flat_map (fun s0 => M [c "td"; c "tr"; c "table"; c "td"; c "tr"; o "tr"; o "td"; o "table"; o "tr"; o "td"] :: sec_segs s0) rest) with (more_wrapped rest).
+  change (flat_map (fun s0 => M [c "td"; c "tr"; c "table"; c "td"; c "tr"; o "tr"; o "td"; o "table"; o "tr"; o "td"] :: sect_segs s0) rest) with (more_wrapped rest).
   rewrite events_app, events_cons.
   change (seg_events Mso (M [c "td"; c "tr"; c "table"; c "td"; c "tr"; o "tr"; o "td"; o "table"; o "tr"; o "td"]))
     with [ec "td"; ec "tr"; ec "table"; ec "td"; ec "tr"; eo "tr"; eo "td"; eo "table"; eo "tr"; eo "td"].
-  rewrite <- app_assoc. unfold wstack. cbn [app]. rewrite !run_ec, !run_eo, run_app, (sec_wb Mso s). apply IH.
+  rewrite <- app_assoc. unfold wstack. cbn [app]. rewrite !run_ec, !run_eo, run_app, (sect_wb Mso s). apply IH.
 Qed.
 Lemma wrap_inner_wb v ss : wb (events v (wrap_inner ss)).
 Proof.
@@ -328,10 +377,10 @@ Proof.
   - unfold wrap_inner. rewrite events_cons, !events_app. destruct v.
     + change (seg_events Std (M [o "table"; o "tr"; o "td"; o "table"; o "tr"; o "td"])) with (@nil ev).
       change (events Std [M [c "td"; c "tr"; c "table"; c "td"; c "tr"; c "table"]]) with (@nil ev).
-      cbn [app]. rewrite app_nil_r. apply wb_app; [apply sec_wb|apply more_wrapped_std].
+      cbn [app]. rewrite app_nil_r. apply wb_app; [apply sect_wb|apply more_wrapped_std].
     + change (seg_events Mso (M [o "table"; o "tr"; o "td"; o "table"; o "tr"; o "td"])) with [eo "table"; eo "tr"; eo "td"; eo "table"; eo "tr"; eo "td"].
       change (events Mso [M [c "td"; c "tr"; c "table"; c "td"; c "tr"; c "table"]]) with [ec "td"; ec "tr"; ec "table"; ec "td"; ec "tr"; ec "table"].
-      intros st. cbn [app]. rewrite !run_eo, run_app, (sec_wb Mso s1), run_app.
+      intros st. cbn [app]. rewrite !run_eo, run_app, (sect_wb Mso s1), run_app.
       change (lit "td" :: lit "tr" :: lit "table" :: lit "td" :: lit "tr" :: lit "table" :: st) with (wstack st).
       rewrite more_wrapped_mso. unfold wstack. rewrite !run_ec. reflexivity.
 Qed.
@@ -343,24 +392,69 @@ Proof.
   apply wrap5. apply wrap_inner_wb.
 Qed.
 
+Lemma wrap4 a b d e es : wb es -> wb (eo a :: eo b :: eo d :: eo e :: es ++ [ec e; ec d; ec b; ec a]).
+Proof.
+  intros H. replace (eo a :: eo b :: eo d :: eo e :: es ++ [ec e; ec d; ec b; ec a])
+    with (eo a :: eo b :: (eo d :: eo e :: es ++ [ec e; ec d]) ++ [ec b; ec a]) by (cbn; rewrite <- app_assoc; reflexivity).
+  apply wrap2. apply wrap2. exact H.
+Qed.
+Lemma fw_wb v s : wb (events v (fw_segs s)).
+Proof.
+  destruct s as [bg s]. unfold fw_segs. destruct bg; cbn [fst snd]; rewrite !events_cons, events_app; destruct v.
+  - change (seg_events Std (P [o "table"; o "tbody"; o "tr"; o "td"])) with [eo "table"; eo "tbody"; eo "tr"; eo "td"].
+    change (seg_events Std vml_open) with (@nil ev). change (seg_events Std (M [o "table"; o "tr"; o "td"])) with (@nil ev).
+    change (seg_events Std (P [o "div"])) with [eo "div"].
+    change (events Std [P [c "div"]; close3; vml_close; P [c "td"; c "tr"; c "tbody"; c "table"]]) with [ec "div"; ec "td"; ec "tr"; ec "tbody"; ec "table"].
+    cbn [app]. apply wrap5. apply sec_wb.
+  - change (seg_events Mso (P [o "table"; o "tbody"; o "tr"; o "td"])) with [eo "table"; eo "tbody"; eo "tr"; eo "td"].
+    change (seg_events Mso vml_open) with [eo "v:rect"; eo "v:textbox"]. change (seg_events Mso (M [o "table"; o "tr"; o "td"])) with [eo "table"; eo "tr"; eo "td"].
+    change (seg_events Mso (P [o "div"])) with [eo "div"].
+    change (events Mso [P [c "div"]; close3; vml_close; P [c "td"; c "tr"; c "tbody"; c "table"]])
+      with [ec "div"; ec "td"; ec "tr"; ec "table"; ec "v:textbox"; ec "v:rect"; ec "td"; ec "tr"; ec "tbody"; ec "table"].
+    cbn [app]. intros st. rewrite !run_eo, run_app, (sec_wb Mso s). cbn [app]. rewrite !run_ec. reflexivity.
+  - change (seg_events Std (P [o "table"; o "tbody"; o "tr"; o "td"])) with [eo "table"; eo "tbody"; eo "tr"; eo "td"].
+    change (seg_events Std (M [o "table"; o "tr"; o "td"])) with (@nil ev).
+    change (events Std [close3; P [c "td"; c "tr"; c "tbody"; c "table"]]) with [ec "td"; ec "tr"; ec "tbody"; ec "table"].
+    cbn [app]. apply wrap4. apply sec_wb.
+  - change (seg_events Mso (P [o "table"; o "tbody"; o "tr"; o "td"])) with [eo "table"; eo "tbody"; eo "tr"; eo "td"].
+    change (seg_events Mso (M [o "table"; o "tr"; o "td"])) with [eo "table"; eo "tr"; eo "td"].
+    change (events Mso [close3; P [c "td"; c "tr"; c "tbody"; c "table"]]) with [ec "td"; ec "tr"; ec "table"; ec "td"; ec "tr"; ec "tbody"; ec "table"].
+    cbn [app]. intros st. rewrite !run_eo, run_app, (sec_wb Mso s). cbn [app]. rewrite !run_ec. reflexivity.
+Qed.
+Lemma hero_wb v ks : wb (events v (hero_segs ks)).
+Proof.
+  unfold hero_segs. rewrite !events_cons, events_app, events_flat_map.
+  assert (R : wb (flat_map (fun k => events v (row_segs k)) ks)) by (apply wb_concat_map; intros k; apply row_wb).
+  destruct v.
+  - change (seg_events Std (M [o "table"; o "tr"; o "td"; TOpen (lit "v:image") [] true])) with (@nil ev).
+    change (seg_events Std (P [o "div"; o "table"; o "tbody"; o "tr"; o "td"])) with [eo "div"; eo "table"; eo "tbody"; eo "tr"; eo "td"].
+    change (seg_events Std (M [o "table"; o "tr"; o "td"])) with (@nil ev).
+    change (seg_events Std (P [o "div"; o "table"; o "tbody"; o "tr"; o "td"; o "table"; o "tbody"])) with [eo "div"; eo "table"; eo "tbody"; eo "tr"; eo "td"; eo "table"; eo "tbody"].
+    change (events Std [P [c "tbody"; c "table"; c "td"; c "tr"; c "tbody"; c "table"; c "div"]; close3; P [c "td"; c "tr"; c "tbody"; c "table"; c "div"]; close3])
+      with [ec "tbody"; ec "table"; ec "td"; ec "tr"; ec "tbody"; ec "table"; ec "div"; ec "td"; ec "tr"; ec "tbody"; ec "table"; ec "div"].
+    cbn [app]. intros st. rewrite !run_eo, run_app, R. cbn [app]. rewrite !run_ec. reflexivity.
+  - change (seg_events Mso (M [o "table"; o "tr"; o "td"; TOpen (lit "v:image") [] true])) with [eo "table"; eo "tr"; eo "td"].
+    change (seg_events Mso (P [o "div"; o "table"; o "tbody"; o "tr"; o "td"])) with [eo "div"; eo "table"; eo "tbody"; eo "tr"; eo "td"].
+    change (seg_events Mso (M [o "table"; o "tr"; o "td"])) with [eo "table"; eo "tr"; eo "td"].
+    change (seg_events Mso (P [o "div"; o "table"; o "tbody"; o "tr"; o "td"; o "table"; o "tbody"])) with [eo "div"; eo "table"; eo "tbody"; eo "tr"; eo "td"; eo "table"; eo "tbody"].
+    change (events Mso [P [c "tbody"; c "table"; c "td"; c "tr"; c "tbody"; c "table"; c "div"]; close3; P [c "td"; c "tr"; c "tbody"; c "table"; c "div"]; close3])
+      with [ec "tbody"; ec "table"; ec "td"; ec "tr"; ec "tbody"; ec "table"; ec "div"; ec "td"; ec "tr"; ec "table"; ec "td"; ec "tr"; ec "tbody"; ec "table"; ec "div"; ec "td"; ec "tr"; ec "table"].
+    cbn [app]. intros st. rewrite !run_eo, run_app, R. cbn [app]. rewrite !run_ec. reflexivity.
+Qed.
+
 (* body: the hand-over between blocks *)
 Lemma blocks_std : forall bs pend, wb (events Std (blocks_segs pend bs)).
 Proof.
   induction bs as [|b r IH]; intros pend; [destruct pend; apply balanced_wb; reflexivity|].
-  assert (O : events Std [open_seg pend] = []) by (destruct pend; reflexivity).
-  destruct b as [s|s|ss]; cbn [blocks_segs].
+  assert (E : events Std (if pend then [close3] else []) = []) by (destruct pend; reflexivity).
+  destruct b as [s|s|ss|ks]; cbn [blocks_segs].
   - rewrite events_cons, events_app. replace (seg_events Std (open_seg pend)) with (@nil ev) by (destruct pend; reflexivity).
-    cbn [app]. apply wb_app; [apply sec_wb|]. destruct r as [|b' r']; [apply balanced_wb; reflexivity|].
-    destruct (continues b'); [apply IH|]. rewrite events_cons. change (seg_events Std close3) with (@nil ev). apply IH.
-  - rewrite events_app. replace (events Std (if pend then [close3] else [])) with (@nil ev) by (destruct pend; reflexivity).
-    cbn [app]. rewrite !events_cons, events_app. cbn [app]. rewrite !events_cons.
-    change (seg_events Std (P [o "table"; o "tbody"; o "tr"; o "td"])) with [eo "table"; eo "tbody"; eo "tr"; eo "td"].
-    change (seg_events Std (M [o "table"; o "tr"; o "td"])) with (@nil ev).
-    change (seg_events Std close3) with (@nil ev).
-    change (seg_events Std (P [c "td"; c "tr"; c "tbody"; c "table"])) with [ec "td"; ec "tr"; ec "tbody"; ec "table"].
-    cbn [app]. intros st. rewrite !run_eo, run_app, (sec_wb Std s), !run_ec. apply IH.
+    cbn [app]. apply wb_app; [apply sect_wb|]. destruct r as [|b' r']; [apply balanced_wb; reflexivity|].
+    destruct (continues b' && negb (fst s)); [apply IH|]. rewrite events_cons. change (seg_events Std close3) with (@nil ev). apply IH.
+  - rewrite !events_app, E. cbn [app]. apply wb_app; [apply fw_wb|apply IH].
   - rewrite events_cons, events_app, events_cons. replace (seg_events Std (open_seg pend)) with (@nil ev) by (destruct pend; reflexivity).
     change (seg_events Std close3) with (@nil ev). cbn [app]. apply wb_app; [apply wrap_wb|apply IH].
+  - rewrite !events_app, E. cbn [app]. apply wb_app; [apply hero_wb|apply IH].
 Qed.
 
 Definition pstack (pend : bool) (st : list bytes) : list bytes :=
@@ -373,27 +467,22 @@ Proof.
     cbn [app]. now rewrite !run_ec, !run_eo.
   - change (seg_events Mso (M [o "table"; o "tr"; o "td"])) with [eo "table"; eo "tr"; eo "td"]. cbn [app]. now rewrite !run_eo.
 Qed.
+Lemma run_pend pend st : run (pstack pend st) (events Mso (if pend then [close3] else [])) = Some st.
+Proof. destruct pend; [|reflexivity]. cbn [pstack]. change (events Mso [close3]) with [ec "td"; ec "tr"; ec "table"]. now rewrite !run_ec. Qed.
 Lemma blocks_mso : forall bs pend st, run (pstack pend st) (events Mso (blocks_segs pend bs)) = Some st.
 Proof.
   induction bs as [|b r IH]; intros pend st.
-  - destruct pend; [|reflexivity]. cbn [blocks_segs pstack]. change (events Mso [close3]) with [ec "td"; ec "tr"; ec "table"]. now rewrite !run_ec.
-  - destruct b as [s|s|ss]; cbn [blocks_segs].
-    + rewrite events_cons, events_app, run_open, run_app, (sec_wb Mso s).
+  - apply run_pend.
+  - destruct b as [s|s|ss|ks]; cbn [blocks_segs].
+    + rewrite events_cons, events_app, run_open, run_app, (sect_wb Mso s).
       destruct r as [|b' r']; [change (events Mso [close3]) with [ec "td"; ec "tr"; ec "table"]; now rewrite !run_ec|].
-      destruct (continues b').
+      destruct (continues b' && negb (fst s)).
       * apply (IH true st).
       * rewrite events_cons. change (seg_events Mso close3) with [ec "td"; ec "tr"; ec "table"]. cbn [app]. rewrite !run_ec. apply (IH false st).
-    + rewrite events_app, run_app.
-      assert (E : run (pstack pend st) (events Mso (if pend then [close3] else [])) = Some st).
-      { destruct pend; [|reflexivity]. cbn [pstack]. change (events Mso [close3]) with [ec "td"; ec "tr"; ec "table"]. now rewrite !run_ec. }
-      rewrite E. rewrite !events_cons, events_app. cbn [app]. rewrite !events_cons.
-      change (seg_events Mso (P [o "table"; o "tbody"; o "tr"; o "td"])) with [eo "table"; eo "tbody"; eo "tr"; eo "td"].
-      change (seg_events Mso (M [o "table"; o "tr"; o "td"])) with [eo "table"; eo "tr"; eo "td"].
-      change (seg_events Mso close3) with [ec "td"; ec "tr"; ec "table"].
-      change (seg_events Mso (P [c "td"; c "tr"; c "tbody"; c "table"])) with [ec "td"; ec "tr"; ec "tbody"; ec "table"].
-      cbn [app]. rewrite !run_eo, run_app, (sec_wb Mso s), !run_ec. apply (IH false st).
+    + rewrite !events_app, run_app, run_pend, run_app, (fw_wb Mso s). apply (IH false st).
     + rewrite events_cons, events_app, run_open, run_app, (wrap_wb Mso ss), events_cons.
       change (seg_events Mso close3) with [ec "td"; ec "tr"; ec "table"]. cbn [app]. rewrite !run_ec. apply (IH false st).
+    + rewrite !events_app, run_app, run_pend, run_app, (hero_wb Mso ks). apply (IH false st).
 Qed.
 
 Theorem body_wb v b : wb (events v (body_segs b)).
@@ -429,12 +518,16 @@ Definition leaf_texts (v : view_kind) (k : leaf) : list bytes :=
   | KDivider, Mso => [lit "~"]
   | _, _ => []
   end.
-Definition col_texts v (ks : column) := flat_map (leaf_texts v) ks.
+Definition col_texts v (cl : column) := flat_map (leaf_texts v) (snd cl).
 Definition cols_texts v (cs : list column) := flat_map (col_texts v) cs.
 Definition sec_texts v (s : section) :=
   match s with Cols cs => cols_texts v cs | Groups gs => flat_map (cols_texts v) gs end.
 Definition block_texts v (b : block) :=
-  match b with Plain s | FullWidth s => sec_texts v s | Wrap ss => flat_map (sec_texts v) ss end.
+  match b with
+  | Plain s | FullWidth s => sec_texts v (snd s)
+  | Wrap ss => flat_map (fun s => sec_texts v (snd s)) ss
+  | Hero ks => flat_map (leaf_texts v) ks
+  end.
 Definition body_texts v (b : body) : list bytes := flat_map (block_texts v) b.
 
 Lemma leaf_txt v k : texts (events v (leaf_segs k)) = leaf_texts v k.
@@ -456,11 +549,16 @@ Proof.
   rewrite row_events. change (eo "tr" :: eo "td" :: ?x) with ([eo "tr"; eo "td"] ++ x).
   rewrite !texts_app, leaf_txt. unfold eo, ec; cbn [texts flat_map app]; now rewrite ?app_nil_r.
 Qed.
+Lemma rows_txt v ks : texts (flat_map (fun k => events v (row_segs k)) ks) = flat_map (leaf_texts v) ks.
+Proof. rewrite texts_flat_map. apply flat_map_ext. intros k. apply row_txt. Qed.
 Lemma col_txt v ks : texts (events v (col_segs ks)) = col_texts v ks.
 Proof.
-  rewrite col_events. change (eo "div" :: eo "table" :: eo "tbody" :: ?x) with ([eo "div"; eo "table"; eo "tbody"] ++ x).
-  rewrite !texts_app, texts_flat_map. unfold eo, ec; cbn [texts flat_map app]; rewrite ?app_nil_r.
-  unfold col_texts. apply flat_map_ext. intros k. apply row_txt.
+  rewrite col_events. destruct ks as [g ks]. unfold col_texts. destruct g; cbn [fst snd].
+  - change (eo "div" :: eo "table" :: eo "tbody" :: eo "tr" :: eo "td" :: eo "table" :: eo "tbody" :: ?x)
+      with ([eo "div"; eo "table"; eo "tbody"; eo "tr"; eo "td"; eo "table"; eo "tbody"] ++ x).
+    rewrite !texts_app, rows_txt. unfold eo, ec; cbn [texts flat_map app]; now rewrite ?app_nil_r.
+  - change (eo "div" :: eo "table" :: eo "tbody" :: ?x) with ([eo "div"; eo "table"; eo "tbody"] ++ x).
+    rewrite !texts_app, rows_txt. unfold eo, ec; cbn [texts flat_map app]; now rewrite ?app_nil_r.
 Qed.
 (* structural segments show nothing *)
 Definition silent (sg : seg) : Prop := forall v, texts (seg_events v sg) = [].
@@ -498,36 +596,56 @@ Proof.
   rewrite sec_events. change (eo "div" :: eo "table" :: eo "tbody" :: eo "tr" :: eo "td" :: ?x) with ([eo "div"; eo "table"; eo "tbody"; eo "tr"; eo "td"] ++ x).
   rewrite !texts_app, children_txt. unfold eo, ec; cbn [texts flat_map app]; now rewrite ?app_nil_r.
 Qed.
-Lemma more_wrapped_txt v rest : texts (events v (more_wrapped rest)) = flat_map (sec_texts v) rest.
+Lemma sect_txt v s : texts (events v (sect_segs s)) = sec_texts v (snd s).
+Proof.
+  destruct s as [bg s]. unfold sect_segs. destruct bg; cbn [fst snd]; [|apply sec_txt].
+  rewrite !silent_txt by sil. rewrite events_app, texts_app, sec_txt.
+  replace (texts (events v [P [c "div"]; vml_close])) with (@nil bytes) by (destruct v; reflexivity). now rewrite app_nil_r.
+Qed.
+Lemma more_wrapped_txt v rest : texts (events v (more_wrapped rest)) = flat_map (fun s => sec_texts v (snd s)) rest.
 Proof.
   induction rest as [|s rest IH]; [reflexivity|].
   unfold more_wrapped. cbn [flat_map].
-  change (flat_map (fun s0 => M [c "td"; c "tr"; c "table"; c "td"; c "tr"; o "tr"; o "td"; o "table"; o "tr"; o "td"] :: sec_segs s0) rest) with (more_wrapped rest).
-  rewrite events_app, texts_app, silent_txt by sil. rewrite sec_txt, IH. reflexivity.
+  change (flat_map (fun s0 => M [c "td"; c "tr"; c "table"; c "td"; c "tr"; o "tr"; o "td"; o "table"; o "tr"; o "td"] :: sect_segs s0) rest) with (more_wrapped rest).
+  rewrite events_app, texts_app, silent_txt by sil. rewrite sect_txt, IH. reflexivity.
 Qed.
-Lemma wrap_txt v ss : texts (events v (wrap_segs ss)) = flat_map (sec_texts v) ss.
+Lemma wrap_txt v ss : texts (events v (wrap_segs ss)) = flat_map (fun s => sec_texts v (snd s)) ss.
 Proof.
   unfold wrap_segs. rewrite silent_txt by sil. rewrite events_app, texts_app.
   replace (texts (events v [P [c "td"; c "tr"; c "tbody"; c "table"; c "div"]])) with (@nil bytes) by (destruct v; reflexivity).
   rewrite app_nil_r. destruct ss as [|s1 rest]; [destruct v; reflexivity|].
-  unfold wrap_inner. rewrite silent_txt by sil. rewrite !events_app, !texts_app, sec_txt, more_wrapped_txt.
+  unfold wrap_inner. rewrite silent_txt by sil. rewrite !events_app, !texts_app, sect_txt, more_wrapped_txt.
   replace (texts (events v [M [c "td"; c "tr"; c "table"; c "td"; c "tr"; c "table"]])) with (@nil bytes) by (destruct v; reflexivity).
   now rewrite app_nil_r.
 Qed.
+Lemma fw_txt v s : texts (events v (fw_segs s)) = sec_texts v (snd s).
+Proof.
+  destruct s as [bg s]. unfold fw_segs. destruct bg; cbn [fst snd]; rewrite !silent_txt by sil; rewrite events_app, texts_app, sec_txt.
+  - replace (texts (events v [P [c "div"]; close3; vml_close; P [c "td"; c "tr"; c "tbody"; c "table"]])) with (@nil bytes) by (destruct v; reflexivity).
+    now rewrite app_nil_r.
+  - replace (texts (events v [close3; P [c "td"; c "tr"; c "tbody"; c "table"]])) with (@nil bytes) by (destruct v; reflexivity).
+    now rewrite app_nil_r.
+Qed.
+Lemma hero_txt v ks : texts (events v (hero_segs ks)) = flat_map (leaf_texts v) ks.
+Proof.
+  unfold hero_segs. rewrite !silent_txt by sil. rewrite events_app, texts_app, events_flat_map, rows_txt.
+  replace (texts (events v [P [c "tbody"; c "table"; c "td"; c "tr"; c "tbody"; c "table"; c "div"]; close3; P [c "td"; c "tr"; c "tbody"; c "table"; c "div"]; close3]))
+    with (@nil bytes) by (destruct v; reflexivity).
+  now rewrite app_nil_r.
+Qed.
 Lemma open_silent pend : silent (open_seg pend). Proof. destruct pend; sil. Qed.
+Lemma pend_txt v (pend : bool) : texts (events v (if pend then [close3] else [])) = []. Proof. destruct pend, v; reflexivity. Qed.
 Lemma blocks_txt v : forall bs pend, texts (events v (blocks_segs pend bs)) = body_texts v bs.
 Proof.
   induction bs as [|b r IH]; intros pend; [destruct pend, v; reflexivity|].
-  destruct b as [s|s|ss]; cbn [blocks_segs body_texts flat_map block_texts].
-  - rewrite silent_txt by apply open_silent. rewrite events_app, texts_app, sec_txt. f_equal.
-    destruct r as [|b' r']; [destruct v; reflexivity|]. destruct (continues b'); [apply IH|].
+  destruct b as [s|s|ss|ks]; cbn [blocks_segs body_texts flat_map block_texts].
+  - rewrite silent_txt by apply open_silent. rewrite events_app, texts_app, sect_txt. f_equal.
+    destruct r as [|b' r']; [destruct v; reflexivity|]. destruct (continues b' && negb (fst s)); [apply IH|].
     rewrite silent_txt by sil. apply IH.
-  - rewrite events_app, texts_app.
-    replace (texts (events v (if pend then [close3] else []))) with (@nil bytes) by (destruct pend, v; reflexivity).
-    cbn [app]. rewrite !silent_txt by sil. rewrite events_app, texts_app, sec_txt. f_equal.
-    cbn [app]. rewrite !silent_txt by sil. apply IH.
+  - rewrite !events_app, !texts_app, pend_txt, fw_txt. cbn [app]. f_equal. apply IH.
   - rewrite silent_txt by apply open_silent. rewrite events_app, texts_app, wrap_txt. f_equal.
     rewrite silent_txt by sil. apply IH.
+  - rewrite !events_app, !texts_app, pend_txt, hero_txt. cbn [app]. f_equal. apply IH.
 Qed.
 
 (* Every document of the grammar: a standard client shows exactly the author's content of the text
@@ -545,7 +663,7 @@ Qed.
 (* what remains of a real output when attributes, text and white space are erased *)
 Definition erase_tok (t : tok) : list tok :=
   match t with
-  | TOpen n _ _ => [TOpen n [] false]
+  | TOpen n _ sc => [TOpen n [] (sc && negb (is_void n))]      (* "<v:fill ... />" stays self-closed; "<img ... />" is void anyway *)
   | TClose n => [TClose n]
   | TText s => if all_space s then [] else [txt]
   | TMsoOpen _ => [TMsoOpen cond]
@@ -627,9 +745,11 @@ Definition text_mismatches (cases : list (nat * body * bytes)) : list nat :=
   flat_map (fun x => match x with (i, b, h) => if texts_agree Std b h && texts_agree Mso b h then [] else [i] end) cases.
 
 Example emit_nonvacuous :
-  let b := [Plain (Cols [[KText (lit "S1X"); KDivider]; [KButtonLink (lit "S2X")]]); Plain (Groups [[[KImage]; []]; []]); FullWidth (Cols []);
-            Wrap [Cols [[KSpacer]]; Cols [[KImageLink]; [KButton (lit "S3X")]]]; Plain (Cols [[KText (lit "S4X")]]); Wrap []] in
+  let b := [Plain (false, Cols [(false, [KText (lit "S1X"); KDivider]); (true, [KButtonLink (lit "S2X")])]);
+            Plain (true, Groups [[(false, [KImage]); (false, [])]; []]); FullWidth (false, Cols []); FullWidth (true, Cols [(true, [])]);
+            Wrap [(false, Cols [(false, [KSpacer])]); (true, Cols [(false, [KImageLink]); (false, [KButton (lit "S3X")])])];
+            Hero [KText (lit "S4X"); KButton (lit "S5X")]; Plain (false, Cols [(false, [KText (lit "S6X")])]); Wrap []] in
   check_views (emit_body b) = true /\ no_vml_outside Closed (emit_body b) = true /\
-  view_texts Std (emit_body b) = Some [lit "S1X"; lit "S2X"; lit "~"; lit "S3X"; lit "S4X"] /\
-  view_texts Mso (emit_body b) = Some [lit "S1X"; lit "~"; lit "S2X"; lit "~"; lit "S3X"; lit "S4X"].
+  view_texts Std (emit_body b) = Some [lit "S1X"; lit "S2X"; lit "~"; lit "S3X"; lit "S4X"; lit "S5X"; lit "S6X"] /\
+  view_texts Mso (emit_body b) = Some [lit "S1X"; lit "~"; lit "S2X"; lit "~"; lit "S3X"; lit "S4X"; lit "S5X"; lit "S6X"].
 Proof. vm_compute. repeat split; reflexivity. Qed.
